@@ -8,7 +8,9 @@ Init == sch \in Schemas
 Next == UNCHANGED sch
 Spec == Init /\ [][Next]_sch
 Code(v) == IF v = "accept" THEN 1 ELSE IF v = "reject" THEN 0 ELSE 2
-Emit == PrintT("@@CASE " \o ToJson([schema |-> sch, opt |-> FALSE, verdicts |-> [i \in DOMAIN DocSeq |-> Code(ScalarVerdict(sch, DocSeq[i], <<>>))]]))
+\* a count beyond any machine integer: an implementation may refuse the schema (it must not read the count as another number)
+MayRefuse(n) == \E i \in DOMAIN n.rules : n.rules[i].v.t = "num" /\ Len(n.rules[i].v.b) > 18
+Emit == PrintT("@@CASE " \o ToJson([schema |-> sch, opt |-> FALSE, mayrefuse |-> MayRefuse(sch), verdicts |-> [i \in DOMAIN DocSeq |-> Code(ScalarVerdict(sch, DocSeq[i], <<>>))]]))
 \* every generated example obeys its own rules; admitted null always accepted
 ExampleOK == sch.v.t = "null" \/ ScalarVerdict(sch, sch.v, <<>>) # "reject"
 NullAdmitted == Nullable(sch) => ScalarVerdict(sch, Null, <<>>) = "accept"
